@@ -245,6 +245,25 @@ def run(chk):
             tdis.append((t, info, b))
         if dom is not None and (not dom_consistent(info, dom) or bad):
             domfail.append((t, info, dom, bad))
+    # (3) the value is determined by the literal and the declarations ALONE: reading the same entity in content first (where
+    #     its white space is kept) or reading other attributes first must not change what an attribute reports
+    ORDER_DOC = ("<!DOCTYPE r [<!ENTITY ws 'a\tb\nc'><!ENTITY w2 '[&ws;]'><!ATTLIST r d CDATA 'x&ws;y' f NMTOKENS #FIXED ' &w2;  k '>]>"
+                 "<r a=\"&ws;\" b=\"&w2;\"><p>&ws;</p><q>&w2;</q></r>")
+    want = {"string(/r/p)": "a\tb\nc", "string(/r/q)": "[a\tb\nc]", "string(/r/@a)": "a b c", "string(/r/@b)": "[a b c]",
+            "string(/r/@d)": "xa b cy", "string(/r/@f)": "[a b c] k", "string(/r[contains(p,'b')]/@a)": "a b c"}
+    orders = [list(want), list(reversed(list(want))), ["string(/r/@a)", "string(/r/p)", "string(/r/@a)", "string(/r/@d)"],
+              ["string(/r/q)", "string(/r/@b)", "string(/r/@f)", "string(/r/p)"], ["string(/r[contains(p,'b')]/@a)", "string(/r/@d)"]]
+    oimpl = lib.run_lines(lib.build_harness(), [lib.req("query", ORDER_DOC, "", *o) for o in orders], timeout=120, per_line_resume=True)
+    for o, a in zip(orders, oimpl):
+        got = a.split(" || ")[0].split(" | ")
+        chk.count([ORDER_DOC] + o, nontrivial=True)
+        exp_f = ["s:" + lib.enc(want[q]) for q in o]
+        if got != exp_f:
+            chk.violation("readorder_%s" % lib.enc(o[0])[-40:],
+                          "property C11: an attribute value depends on what was read before it (it must be determined by the literal "
+                          "and the declarations)\ndocument: %s\nqueries in this order on one document: %s\nimplementation: %s\n"
+                          "expected:       %s\n" % (ORDER_DOC, o, got, exp_f))
+            mfail.append((ORDER_DOC, got, exp_f, ""))
     chk.cov["systematic_cases"] = n_sys
     chk.cov["input_distribution"] = hist
     chk.cov["disagreements_checked"] = len(tdis)
